@@ -42,7 +42,7 @@ def _mk(net, kind, after: bytes, status: int):
     return o
 
 
-async def _handover(flavor, kind, after, status, seg, sizes):
+async def _handover(flavor, kind, after, status, seg, sizes, read_body_first=False):
     net = simnet.Net()
     net.log_events = False
     net.segmentation = seg
@@ -57,6 +57,9 @@ async def _handover(flavor, kind, after, status, seg, sizes):
         else:
             resp, cm = await api.open("CONNECT", "http://o.test/", extensions={"target": b"dest.test:443"})
         info["status"] = resp.status
+        if read_body_first:
+            # the (empty) body of the 101 / CONNECT response may be read before the stream is taken over
+            info["body"] = b"".join(await api.chunks(resp))
         ns = resp.extensions["network_stream"]
         got = bytearray()
         reads = []
@@ -171,8 +174,9 @@ def run_case(case):
                 sz_list = [size_sets[(seg.arg[0] + j) % len(size_sets)] for j in range(2)]
             else:
                 sz_list = size_sets
-            for sizes in sz_list:
-                out, info, net = await _handover(flavor, kind, after, status, seg, sizes)
+            for si, sizes in enumerate(sz_list):
+                rbf = (si + len(sizes) + (seg.arg[0] if name == "cut" else 0)) % 3 == 0
+                out, info, net = await _handover(flavor, kind, after, status, seg, sizes, read_body_first=rbf)
                 cnt["handovers"] += 1
                 if name == "cut":
                     cnt["cuts"] += 1
@@ -180,9 +184,9 @@ def run_case(case):
                     pos = "head" if c < head_len else ("boundary" if c == head_len else "data")
                 else:
                     pos = "-"
-                sigs.add(f"{kind}|{status}|after{n_after}|{name}|{pos}|mb{sizes}")
+                sigs.add(f"{kind}|{status}|after{n_after}|{name}|{pos}|mb{sizes}|rbf{int(rbf)}")
                 ctx = {"kind": kind, "status": status, "after_len": n_after, "seg": seg.describe(), "max_bytes": sizes,
-                       "flavor": flavor, "reads": info.get("reads")}
+                       "flavor": flavor, "reads": info.get("reads"), "body_read_before_takeover": rbf}
                 if out.kind != "ok":
                     mech = exc_name(out.exc) if out.kind == "exc" else out.kind
                     got = info.get("leading")
